@@ -4,6 +4,7 @@ import (
 	"fmt"
 	"regexp"
 	"sort"
+	"strconv"
 	"strings"
 
 	"golang.org/x/tools/go/ssa"
@@ -182,6 +183,93 @@ func (c *Ctx) exprReturnsSplit(fn *ssa.Function) []exprRet {
 	return out
 }
 
+// successPaths lists, for every acyclic path from the entry to a return of a nil error,
+// the conditions of the branches taken (a loop left through its exit contributes
+// loopdone(...)): the path-sensitive reading of "under which conditions does fn succeed".
+func (c *Ctx) successPaths(fn *ssa.Function) []exprRet {
+	var out []exprRet
+	loops := ir.Loops(fn)
+	ei := ir.ErrorResultIndex(fn.Signature)
+	seen := map[string]bool{}
+	var path []*ssa.BasicBlock
+	on := map[*ssa.BasicBlock]bool{}
+	var conds []string
+	n := 0
+	var rec func(b *ssa.BasicBlock)
+	rec = func(b *ssa.BasicBlock) {
+		if on[b] || n > 20000 {
+			return
+		}
+		n++
+		on[b] = true
+		path = append(path, b)
+		defer func() { on[b] = false; path = path[:len(path)-1] }()
+		switch t := b.Instrs[len(b.Instrs)-1].(type) {
+		case *ssa.Return:
+			if ei < 0 {
+				return
+			}
+			v := ir.ReturnResult(t, ei)
+			// the value on this path
+			for {
+				phi, ok := v.(*ssa.Phi)
+				if !ok {
+					break
+				}
+				k := -1
+				for i := len(path) - 1; i > 0; i-- {
+					if path[i] == phi.Block() {
+						for j, p := range phi.Block().Preds {
+							if p == path[i-1] {
+								k = j
+							}
+						}
+						break
+					}
+				}
+				if k < 0 {
+					break
+				}
+				v = phi.Edges[k]
+			}
+			if !ir.IsNilConst(v) {
+				return
+			}
+			gs := normExpr(fn, append([]string{}, conds...))
+			sort.Strings(gs)
+			var uniq []string
+			for i, g := range gs {
+				if i == 0 || g != gs[i-1] {
+					uniq = append(uniq, g)
+				}
+			}
+			key := strings.Join(uniq, "\x00") + c.pos(t)
+			if !seen[key] {
+				seen[key] = true
+				out = append(out, exprRet{ret: t, guards: uniq, results: []string{"nil"}})
+			}
+		case *ssa.If:
+			if b.Succs[0] == b.Succs[1] {
+				rec(b.Succs[0])
+				return
+			}
+			for k := 0; k < 2; k++ {
+				conds = append(conds, c.exprCond(t, k, loops))
+				rec(b.Succs[k])
+				conds = conds[:len(conds)-1]
+			}
+		default:
+			for _, s := range b.Succs {
+				rec(s)
+			}
+		}
+	}
+	if len(fn.Blocks) > 0 {
+		rec(fn.Blocks[0])
+	}
+	return out
+}
+
 func runC07(c *Ctx) {
 	r := c.R
 	r.Rule("C07.1", "bounds: every index/slice expression of pkg/parser is proven in range", 1)
@@ -320,26 +408,84 @@ func runC07(c *Ctx) {
 		if fn == nil {
 			continue
 		}
-		wantA := []string{nv.first + "(rune($0[0]))", "len($0) == 1", "nonempty($0)"}
-		wantB := []string{"IsAlphaNumeric(rune($0[(len($0) - 1)]))", nv.first + "(rune($0[0]))", "len($0) != 1", "loopdone($0[1:(len($0) - 1)])", "nonempty($0)"}
-		sort.Strings(wantA)
-		sort.Strings(wantB)
-		var gotA, gotB bool
-		for _, er := range c.exprReturnsSplit(fn) {
-			if er.results[0] != "nil" {
+		// Every success path is read as: which lengths it admits (1, 2, 3-or-more), what it
+		// demands of the first and of the last character, whether it has been through the
+		// complete loop over the inner section. Per length class the demands must be exactly
+		// the grammar's; all three classes must be admitted by some success path.
+		firstSet, lastSet := runesOf(classes[nv.first]), runesOf(classes["IsAlphaNumeric"])
+		lenRe := regexp.MustCompile(`^len\(\$0\) (==|!=|<|<=|>|>=) (\d+)$`)
+		clsRe := regexp.MustCompile(`^(!?)(IsLetter|IsDigit|IsAlphaNumeric)\(rune\(\$0\[(0|\(len\(\$0\) - 1\))\]\)\)$`)
+		covered := map[int]bool{}
+		for _, er := range c.successPaths(fn) {
+			lens := map[int]bool{1: true, 2: true, 3: true}
+			first, last, inner, unknown := fullRunes(), fullRunes(), false, ""
+			for _, g := range er.guards {
+				switch {
+				case g == "nonempty($0)":
+				case g == "loopdone($0[1:(len($0) - 1)])":
+					inner = true
+				case lenRe.MatchString(g):
+					m := lenRe.FindStringSubmatch(g)
+					k, _ := strconv.Atoi(m[2])
+					holds := func(n int) bool { // n = 3 stands for every length >= 3
+						switch m[1] {
+						case "==":
+							return n == k
+						case "!=":
+							return n != k
+						case "<":
+							return n < k
+						case "<=":
+							return n <= k
+						case ">":
+							return n > k
+						}
+						return n >= k
+					}
+					if k > 3 || (k == 3 && (m[1] == "==" || m[1] == "!=" || m[1] == ">" || m[1] == "<=")) {
+						unknown = g // tells lengths of three or more apart
+					}
+					for n := range lens {
+						if !holds(n) {
+							delete(lens, n)
+						}
+					}
+				case clsRe.MatchString(g):
+					m := clsRe.FindStringSubmatch(g)
+					set := runesOf(classes[m[2]])
+					if m[1] == "!" {
+						set = set.complement()
+					}
+					if m[3] == "0" {
+						first = first.intersect(set)
+					} else {
+						last = last.intersect(set)
+					}
+				default:
+					unknown = g
+				}
+			}
+			ok := unknown == "" && len(lens) > 0
+			for n := range lens {
+				switch n {
+				case 1: // one character: it is the first and the last
+					ok = ok && first.intersect(last).equal(firstSet.intersect(lastSet))
+				case 2:
+					ok = ok && first.equal(firstSet) && last.equal(lastSet)
+				case 3:
+					ok = ok && first.equal(firstSet) && last.equal(lastSet) && inner
+				}
+			}
+			if !ok {
+				r.Violation("C07.4", "structure:"+nv.fn+":unexpected-success", c.pos(er.ret), fmt.Sprintf("%s accepts under %v; the grammar allows only a single %s character, or %s first, the middle class, and a letter or digit last", nv.fn, er.guards, nv.first, nv.first))
 				continue
 			}
-			switch {
-			case sameSet(er.guards, wantA):
-				gotA = true
-			case sameSet(er.guards, wantB):
-				gotB = true
-			default:
-				r.Violation("C07.4", "structure:"+nv.fn+":unexpected-success", c.pos(er.ret), fmt.Sprintf("%s accepts under %v; the grammar allows only a single %s character, or %s first, the middle class, and a letter or digit last", nv.fn, er.guards, nv.first, nv.first))
+			for n := range lens {
+				covered[n] = true
 			}
 		}
-		r.Check("C07.4", "structure:"+nv.fn+":single", gotA, c.U.Pos(fn.Pos()), fmt.Sprintf("a single character is accepted iff %s (%v)", nv.first, wantA))
-		r.Check("C07.4", "structure:"+nv.fn+":general", gotB, c.U.Pos(fn.Pos()), fmt.Sprintf("longer names: %v", wantB))
+		r.Check("C07.4", "structure:"+nv.fn+":single", covered[1], c.U.Pos(fn.Pos()), fmt.Sprintf("a single character is accepted iff %s", nv.first))
+		r.Check("C07.4", "structure:"+nv.fn+":general", covered[2] && covered[3], c.U.Pos(fn.Pos()), fmt.Sprintf("longer names: %s first, a letter or digit last, the inner section through the complete loop", nv.first))
 		// middle class
 		var loop *ir.Loop
 		for _, l := range ir.Loops(fn) {
